@@ -2312,8 +2312,6 @@ def distributed_shampoo(
     param_pspec_flat, _ = jax.tree.flatten(
         params_partition_spec, is_leaf=lambda x: x is None)
     params_flat, treedef = jax.tree.flatten(params)
-    assert param_pspec_flat
-    assert params_flat
     # Step is replicated across cores.
     # None means cores.
     local_stats_flat = []
@@ -2373,7 +2371,6 @@ def distributed_shampoo(
     """
     # Parallel lists of spec, and params.
     params_flat, treedef = jax.tree.flatten(params)
-    assert params_flat
     # Step is replicated across cores.
     # None means cores.
     local_stats_flat = []
